@@ -86,7 +86,7 @@ def to_tokens(hists, first_id=1):
 
 DEFAULT_PARAMS = {"maxc": 3, "minc": 2, "maxv": 5, "len": 20, "cbounds": [0, 1, 4, 10], "vbounds": [-1, 1, 3],
                   "pens": [0, 1, 2], "ws": [0, 1, 2, 4], "lims": [-1, 1, 2], "caps": [2, 3], "pols": [0, 1], "late": 0,
-                  "fam": 0, "susp": 1, "maxw": 8, "ff": [], "bases": [[]]}
+                  "fam": 0, "susp": 1, "maxw": 8, "bounded": 0, "ff": [], "bases": [[]]}
 
 
 def params(**kw):
@@ -122,7 +122,8 @@ def tlc_histories(ctx, par, tag, simulate=None, seed=None, timeout=600, workers=
     pf = os.path.join(ctx.scratch, tag + "_params.json")
     json.dump(par, open(pf, "w"))
     if simulate:
-        r = vlib.tlc(os.path.join(LSPEC, "LmmGen.tla"), cfg=os.path.join(LSPEC, "LmmGen_sim.cfg"), env={"LMM_PARAMS": pf},
+        cfg = "LmmGen_simq.cfg" if par.get("fam") == 1 else "LmmGen_sim.cfg"       # waiting queues (C18) / general mix
+        r = vlib.tlc(os.path.join(LSPEC, "LmmGen.tla"), cfg=os.path.join(LSPEC, cfg), env={"LMM_PARAMS": pf},
                      simulate="num=%d" % simulate, depth=par["len"] + 200, seed=seed, workers=1, timeout=timeout, xmx="1g")
     else:
         r = vlib.tlc(os.path.join(LSPEC, "LmmGen.tla"), cfg=os.path.join(LSPEC, "LmmGen_hist.cfg"), env={"LMM_PARAMS": pf},
@@ -132,11 +133,12 @@ def tlc_histories(ctx, par, tag, simulate=None, seed=None, timeout=600, workers=
     return _parse_hists(r), r
 
 
-def random_histories(ctx, par, total, tag, nproc=12, timeout=600):
-    """`total` random histories: nproc seeded `-simulate` runs in parallel (seeds derived from VERIF_SEED)."""
+def random_histories(ctx, par, total, tag, nproc=12, timeout=600, rng=None):
+    """`total` random histories: nproc seeded `-simulate` runs in parallel (seeds derived from VERIF_SEED; `rng`: a
+    generator of its own when several families are generated at the same time)."""
     nproc = max(1, min(nproc, total))
     per = (total + nproc - 1) // nproc
-    seeds = [ctx.rng.randrange(1, 1 << 30) for _ in range(nproc)]
+    seeds = [(rng or ctx.rng).randrange(1, 1 << 30) for _ in range(nproc)]
     res = vlib.parallel_map(lambda js: tlc_histories(ctx, par, "%s_%d" % (tag, js[0]), simulate=per, seed=js[1],
                                                      timeout=timeout)[0], list(enumerate(seeds)), nproc=nproc)
     seen = set()
@@ -283,6 +285,12 @@ def validate(ctx, hists, hdr, recs, tag="tv", nproc=6, timeout=900):
 RICH_BASE = [O("cnew", 10, 1, -1), O("cnew", 6, 1, -1), O("cnew", 8, 0, -1), O("vnew", 1, -1, 3), O("expand", 1, 1, 2),
              O("expand", 2, 1, 2), O("vnew", 2, 3, 3), O("expand", 1, 2, 2), O("expand", 3, 2, 4), O("vnew", 1, -1, 2),
              O("expand", 2, 3, 1), O("expand", 3, 3, 2), O("vnew", 1, 2, 2), O("expand", 1, 4, 3), O("solve")]
+
+# waiting queues behind two constraints of limit 1 (C18): c1 is held by v1, c2 by v2 (both could take one more element);
+# v3 (element of weight 0.5 on c1: it takes no slot but waits for one) and v4 wait for c1, v5 waits for c2
+QUEUE_BASE = [O("cnew", 10, 1, 1), O("cnew", 10, 1, 1), O("vnew", 1, -1, 2), O("expand", 1, 1, 2), O("vnew", 1, -1, 2),
+              O("expand", 2, 2, 2), O("vnew", 0, -1, 2), O("expand", 1, 3, 1), O("vpen", 3, 1), O("vnew", 1, -1, 2),
+              O("expand", 1, 4, 2), O("vnew", 1, -1, 2), O("expand", 2, 5, 2), O("solve")]
 
 # ------------------------------------------------------------------------------------------- regression histories
 # situations in which the pinned commit deviates (found by these checks; see KNOWN_FINDINGS.jsonl). Kept as permanent cases.
